@@ -77,6 +77,10 @@ def sig_event(ev, sform="pinned"):
             return ["D", "cancelS"]
         if e == "return":
             return ["D", "return"]
+        if e == "sigmask":
+            # dsh()'s _mask_signals: SIG_BLOCK (0) at its start, SIG_UNBLOCK (1) after the signals thread was stopped;
+            # steps of the wrapper Dsh/SignalsMask.lean.  (SIG_SETMASK: a saved mask restored - told apart by order)
+            return ["D", "mask" if a == "0" else "unmask" if a == "1" else "setmask"]
         if e in ("fwd", "signal"):
             return ["D", e, a]
         return None
@@ -203,6 +207,8 @@ def project_sig(res, variant, wform="blind", sform="pinned"):
             L.append("obs gkill")
         if fe is None:
             continue
+        if fe == ["D", "setmask"]:
+            fe = ["D", "unmask" if any(l in ("ev D mask", "ev D unmask") for l in L) else "mask"]
         if fe[0].startswith("W") and fe[1] == "lockT" and stage.get(fe[0]) == "body":
             # the read loop was given up (time-out, read error): the result written under thd_mutex is DSH_FAILED
             nts = next_ts(evs, pos)
